@@ -2,6 +2,8 @@ package main
 
 import (
 	"fmt"
+	"go/token"
+	"go/types"
 	"strings"
 
 	"golang.org/x/tools/go/ssa"
@@ -189,7 +191,41 @@ func c12(c *Ctx) {
 	}
 
 	// ---- C12.7 constraints are evaluated against the current schema: catalog cache coherence (shared with C13.4) -------
+	// ---- C12.8 the persisted column flags accumulate ------------------------------------------------------------------
+	// NOT NULL / AUTO_INCREMENT / HAS_DEFAULT share one flags byte of the catalog entry: each flag is OR-ed into the
+	// byte; a plain assignment drops the constraints set before it, and the next transaction reloads the column without them
+	r8 := "C12.8/column-flags-accumulate"
+	if f := c.mustFn(r8, "embedded/sql.persistColumn"); f != nil {
+		n := 0
+		allInstrs(f, false, func(in ssa.Instruction) {
+			st, ok := in.(*ssa.Store)
+			if !ok {
+				return
+			}
+			ia, ok := st.Addr.(*ssa.IndexAddr)
+			if !ok || desc(ia.Index) != "const:0" {
+				return
+			}
+			if b, ok := st.Val.Type().Underlying().(*types.Basic); !ok || b.Kind() != types.Uint8 {
+				return
+			}
+			n++
+			acc := dependsOn(st.Val, func(v ssa.Value) bool {
+				ld, ok := v.(*ssa.UnOp)
+				if !ok || ld.Op != token.MUL {
+					return false
+				}
+				ia2, ok := ld.X.(*ssa.IndexAddr)
+				return ok && desc(ia2.Index) == "const:0" && desc(ia2.X) == desc(ia.X)
+			})
+			c.check(acc, r8, fmt.Sprintf("%s:flags-store#%d", fnName(f), n), c.pos(st.Pos()), "flag OR-ed into the current flags byte", "the column flags byte is overwritten with "+desc(st.Val)+": flags set earlier (NOT NULL, AUTO_INCREMENT) are lost in the persisted catalog")
+		})
+		if n < 3 {
+			c.undecided(r8, fnName(f)+":floor", fmt.Sprintf("%d stores to the flags byte found (3 confirmed by hand)", n))
+		}
+	}
 	c13CatalogCache(c, "C12.7/catalog-cache-coherence")
+	c13CloneIsDeep(c, "C12.7/catalog-clone-is-deep")
 
 	// ---- C12.4 failure aborts the transaction ----------------------------------------------------------------------------------
 	r = "C12.4/failure-aborts"
